@@ -1,6 +1,8 @@
 import Scion.Model.Net
 import Scion.Proofs.Net
 import Scion.Proofs.NetTamper
+import Scion.Proofs.NetTamper2
+import Scion.Proofs.NetMulti2
 /-!
 # C04 — Tampered hop or info fields prevent delivery
 
@@ -255,6 +257,285 @@ theorem tamper_hop_stopped_partial (mac : MacFn) (net : Net) (now src dst : Nat)
           · cases cd <;> simp [usedSeg, hp]
         simp [inputOf, hus, h1, h2, h3])
   obtain ⟨o, ho⟩ := run_stops mac net now src dst fuel ek.ia 0 (.ext (inF cd ek)) _ _ hrej
+  exact ⟨o, _, ho⟩
+
+/-- **the altered hop field reaches its AS**: a packet arriving over the ingress interface of the
+    hop `ek` (segment traversed in direction `cd`, SegID `seg` on arrival) with the hop field
+    altered (`HopTamper`) is stopped by that AS — wherever on the path the hop lies (`before`,
+    `done`, `tlh`, `after` arbitrary) -/
+theorem tamper_at_arrival_stopped (mac : MacFn) (net : Net) (now src dst : Nat) (cd : Bool) (ts seg : Nat)
+    (ek : ASE) (h' : Hop) (before after : List Seg) (done tlh : List Hop)
+    (hinj : MacInj mac (net ek.ia).key)
+    (hin0 : inF cd ek ≠ 0) (hml : MacAt mac net ts (usedAt cd seg ek) ek)
+    (htam : HopTamper cd (hopOf ek.hop) h')
+    (hr : InRange ⟨cd, false, usedSeg cd seg (hopOf ek.hop), ts⟩ (hopOf ek.hop))
+    (hr' : InRange ⟨cd, false, usedSeg cd seg h', ts⟩ h')
+    (fuel : Nat) (tr0 : List (Nat × Nat)) :
+    ∃ o, run mac net now src dst (fuel + 1) ek.ia 0 (.ext (inF cd ek))
+        ⟨before, ⟨cd, false, seg, ts⟩, done, h', tlh, after⟩ tr0 =
+      .stopped ek.ia 0 (.ext (inF cd ek)) o tr0 := by
+  have hing : ∀ h : Hop, ingUpd ⟨before, ⟨cd, false, seg, ts⟩, done, h, tlh, after⟩ (.ext (inF cd ek)) false =
+      ⟨before, ⟨cd, false, usedSeg cd seg h, ts⟩, done, h, tlh, after⟩ := by
+    intro h
+    cases cd <;> simp [ingUpd, usedSeg, Arrival.ifid, hin0]
+  have hrej := tampered_current_hop_not_forwarded mac (cfgOf net ek.ia) hinj now (.ext (inF cd ek))
+    (ek.ia == src) (ek.ia == dst)
+    ⟨before, ⟨cd, false, seg, ts⟩, done, hopOf ek.hop, tlh, after⟩
+    ⟨before, ⟨cd, false, seg, ts⟩, done, h', tlh, after⟩ false
+    (by simp [determinePeer]) (by rw [hing]; exact hr) (by rw [hing]; exact hr')
+    (by rw [hing, usedSeg_hopOf]; exact macOk_of_macAt mac net ts _ ek cd false hml)
+    (by
+      rw [hing, hing]
+      rcases htam with ⟨hm, hne⟩ | ⟨hm, _, _, _, _⟩
+      · intro heq
+        simp only [protectedOf, Prod.mk.injEq] at heq
+        exact hne (by simp [heq.2.2.1, heq.2.2.2.1, heq.2.2.2.2.1])
+      · intro heq
+        simp only [protectedOf, Prod.mk.injEq] at heq
+        exact hm heq.2.2.2.2.2)
+    (by
+      rw [hing, hing]
+      rcases htam with ⟨hm, _⟩ | ⟨_, h1, h2, h3, hp⟩
+      · left; exact hm
+      · right
+        have hus : usedSeg cd seg h' = usedSeg cd seg (hopOf ek.hop) := by
+          rcases hp with hcd | hp
+          · subst hcd; rfl
+          · cases cd <;> simp [usedSeg, hp]
+        simp [inputOf, hus, h1, h2, h3])
+  exact run_stops mac net now src dst fuel ek.ia 0 (.ext (inF cd ek)) _ _ hrej
+
+/-- **run level, any hop after the first of the SECOND segment** (`_partial`: one border router
+    per AS; the first two segments are described by `FL` as every registered edge is; whatever
+    follows — the rest of the second segment, a third segment — is arbitrary).  The packet travels
+    as the genuine one through the whole first segment, across the segment change and along the
+    second segment up to the AS of `ek2`, whose hop field was altered, and is stopped there. -/
+theorem tamper_second_segment_hop_stopped_partial (mac : MacFn) (net : Net) (now src dst : Nat)
+    (hUp : AllUp net) (hSR : SingleRouter net)
+    (core1 cd1 : Bool) (ts1 seg10 : Nat) (e10 : ASE) (mid1 : List ASE) (last1 : ASE)
+    (core2 cd2 : Bool) (ts2 seg20 : Nat) (e20 : ASE) (m2 : List ASE) (ek2 : ASE) (h' : Hop)
+    (tlh : List Hop) (aft : List Seg) (ha : ∀ s ∈ aft, s.hops.length ≠ 1)
+    (hinj : MacInj mac (net ek2.ia).key)
+    (hFL1 : FL mac net core1 cd1 ts1 seg10 (e10 :: (mid1 ++ [last1])))
+    (hFL2 : FL mac net core2 cd2 ts2 seg20 (e20 :: (m2 ++ [ek2])))
+    (hsrc : src = e10.ia) (hsd : src ≠ dst)
+    (hmid1 : ∀ e ∈ mid1, e.ia ≠ src ∧ e.ia ≠ dst ∧ expired now ts1 e.hop.exp = false)
+    (hexp0 : expired now ts1 e10.hop.exp = false)
+    (hjoint : last1.ia = e20.ia) (hls : last1.ia ≠ src) (hld : last1.ia ≠ dst)
+    (hexpl : expired now ts1 last1.hop.exp = false) (hexp2 : expired now ts2 e20.hop.exp = false)
+    (hxlt : ∀ a b, InLT core1 cd1 a → EgLT core2 cd2 b → ltXover a b = true)
+    (hmid2 : ∀ e ∈ m2, e.ia ≠ src ∧ e.ia ≠ dst ∧ expired now ts2 e.hop.exp = false)
+    (htam : HopTamper cd2 (hopOf ek2.hop) h')
+    (hr : InRange ⟨cd2, false, usedSeg cd2 (Scion.SegID.extractBeta (Scion.SegID.updateSegID seg20 (pfx e20.hop.mac)) (sig m2))
+            (hopOf ek2.hop), ts2⟩ (hopOf ek2.hop))
+    (hr' : InRange ⟨cd2, false, usedSeg cd2 (Scion.SegID.extractBeta (Scion.SegID.updateSegID seg20 (pfx e20.hop.mac)) (sig m2))
+            h', ts2⟩ h')
+    (fuel : Nat) :
+    ∃ o tr, run mac net now src dst (fuel + 3 + mid1.length + m2.length) src 0 .host
+        ⟨[], ⟨cd1, false, usedAt cd1 seg10 e10, ts1⟩, [], hopOf e10.hop,
+          (mid1.map fun e => hopOf e.hop) ++ [hopOf last1.hop],
+          ⟨⟨cd2, false, usedAt cd2 seg20 e20, ts2⟩,
+            hopOf e20.hop :: ((m2.map fun e => hopOf e.hop) ++ h' :: tlh)⟩ :: aft⟩ [] =
+      .stopped ek2.ia 0 (.ext (inF cd2 ek2)) o tr := by
+  have ha' : ∀ s ∈ (⟨⟨cd2, false, usedAt cd2 seg20 e20, ts2⟩,
+      hopOf e20.hop :: ((m2.map fun e => hopOf e.hop) ++ h' :: tlh)⟩ : Seg) :: aft, s.hops.length ≠ 1 := by
+    intro s hs
+    simp only [List.mem_cons] at hs
+    rcases hs with rfl | hs
+    · simp
+    · exact ha s hs
+  have hpre := segment_prefix_run_after mac net now src dst hUp hSR core1 cd1 ts1 seg10 e10 mid1 last1
+    (hopOf last1.hop) [] _ ha' hFL1 hsrc hsd hmid1 hexp0 (fuel + 2 + m2.length)
+  rw [show fuel + 3 + mid1.length + m2.length = fuel + 2 + m2.length + 1 + mid1.length by omega, hpre]
+  have hcross := cross_prefix_run mac net now src dst hUp hSR core1 cd1 ts1 seg10 e10 mid1 last1
+    core2 cd2 ts2 seg20 e20 m2 ek2 h' tlh [] aft (hopOf e10.hop :: mid1.map fun e => hopOf e.hop)
+    (by simp) ha (by simp) hFL1 hFL2 hjoint hls hld hexpl hexp2 hxlt hmid2 (fuel + 1)
+    ((e10.ia, outF cd1 e10) :: ((firstOf mid1 last1).ia, inF cd1 (firstOf mid1 last1)) :: fTrace cd1 mid1 last1)
+  rw [show fuel + 2 + m2.length = fuel + 1 + 1 + m2.length by omega, hcross]
+  obtain ⟨hml, hin0, _⟩ := fl_last mac net core2 cd2 ts2 m2 e20 ek2 seg20 hFL2
+  obtain ⟨o, ho⟩ := tamper_at_arrival_stopped mac net now src dst cd2 ts2 _ ek2 h' _ aft _ tlh hinj hin0 hml
+    htam hr hr' fuel _
+  exact ⟨o, _, ho⟩
+
+/-- a router that lets a packet continue across a segment change has validated the first hop
+    field of the new segment under the new segment's info field as the packet carries it -/
+theorem xover_next_checked (mac : MacFn) (cfg : RCfg) (now : Nat) (arr : Arrival) (sl : Bool) (c : Cursor)
+    (hacc : (routerStep mac cfg now arr sl false c).accepting = true)
+    (hp : determinePeer c = some false) (hx : (ingUpd c arr false).isXover = true) :
+    ∃ c2, (ingUpd c arr false).incPath = some c2 ∧ macOk mac cfg.key c2.info c2.cur = true := by
+  cases hstep : routerStep mac cfg now arr sl false c with
+  | deliver cf =>
+    obtain ⟨_, _, hdl, _⟩ := routerStep_deliver_inv _ _ _ _ _ _ _ _ hstep
+    cases hdl
+  | forward e c' =>
+    obtain ⟨s, x, hs, _, hxo, _⟩ := routerStep_forward_inv _ _ _ _ _ _ _ _ _ hstep
+    obtain ⟨hdp, hsc, _, _⟩ := stIngress_ok _ _ _ _ _ _ _ _ hs
+    rw [hp] at hdp
+    have hsp : s.peering = false := (Option.some.inj hdp).symm
+    obtain ⟨_, hxc⟩ := stXover_ok _ _ _ _ _ hxo
+    rw [hsc, hsp] at hxc
+    rcases hxc with ⟨_, _, hno⟩ | ⟨_, _, hinc, _, hmac⟩
+    · rw [hx] at hno; simp at hno
+    · exact ⟨x.c, hinc, hmac⟩
+  | slow t k e c' => rw [hstep] at hacc; cases hacc
+  | alert b e c' => rw [hstep] at hacc; cases hacc
+  | drop => rw [hstep] at hacc; cases hacc
+
+/-- the router at a segment change does not let a packet continue whose next segment starts
+    with an altered hop field -/
+theorem xover_tampered_rejected (mac : MacFn) (cfg : RCfg) (now i : Nat) (sl : Bool)
+    (hinj : MacInj mac cfg.key) (before : List Seg) (info1 : Info) (done : List Hop) (h1 : Hop)
+    (i2 : Info) (h2 h2' : Hop) (t2 : List Hop) (aft : List Seg)
+    (hpe : info1.peer = false) (hgen : macOk mac cfg.key i2 h2 = true)
+    (hr : InRange i2 h2) (hr' : InRange i2 h2') (htam : HopTamper true h2 h2') :
+    (routerStep mac cfg now (.ext i) sl false
+      ⟨before, info1, done, h1, [], ⟨i2, h2' :: t2⟩ :: aft⟩).accepting = false := by
+  apply Bool.eq_false_iff.2
+  intro hacc
+  obtain ⟨sid, hsid⟩ := ingUpd_setSeg ⟨before, info1, done, h1, [], ⟨i2, h2' :: t2⟩ :: aft⟩ (.ext i) false
+  obtain ⟨c2, hinc, hmac⟩ := xover_next_checked mac cfg now _ sl _ hacc (by simp [determinePeer, hpe])
+    (by rw [hsid]; rfl)
+  rw [hsid] at hinc
+  have hc2 : c2.info = i2 ∧ c2.cur = h2' := by
+    simp only [setSeg, Cursor.incPath, Option.some.injEq] at hinc
+    subst hinc; exact ⟨rfl, rfl⟩
+  rw [hc2.1, hc2.2] at hmac
+  have := tamper_hop_rejected mac cfg.key hinj i2 i2 h2 h2' hr hr' hgen
+    (by
+      rcases htam with ⟨hm, hne⟩ | ⟨hm, _, _, _, _⟩
+      · intro heq
+        simp only [protectedOf, Prod.mk.injEq] at heq
+        exact hne (by simp [heq.2.2.1, heq.2.2.2.1, heq.2.2.2.2.1])
+      · intro heq
+        simp only [protectedOf, Prod.mk.injEq] at heq
+        exact hm heq.2.2.2.2.2)
+    (by
+      rcases htam with ⟨hm, _⟩ | ⟨_, h1, h2, h3, _⟩
+      · left; exact hm
+      · right; simp [inputOf, h1, h2, h3])
+  rw [this] at hmac
+  cases hmac
+
+/-- **run level, the first hop field of the SECOND segment** (the one validated at the segment
+    change, by the last AS of the first segment; `_partial`: one border router per AS).  Its SegID
+    is the info field's as the packet carries it, so any change of the hop field is covered
+    (`HopTamper true`).  The packet is stopped at the joint AS. -/
+theorem tamper_xover_hop_stopped_partial (mac : MacFn) (net : Net) (now src dst : Nat)
+    (hUp : AllUp net) (hSR : SingleRouter net)
+    (core1 cd1 : Bool) (ts1 seg10 : Nat) (e10 : ASE) (mid1 : List ASE) (last1 : ASE)
+    (cd2 : Bool) (ts2 β2 : Nat) (e20 : ASE) (h2' : Hop) (t2 : List Hop) (aft : List Seg)
+    (ha : ∀ s ∈ aft, s.hops.length ≠ 1) (ht2 : t2 ≠ [])
+    (hinj : MacInj mac (net last1.ia).key)
+    (hFL1 : FL mac net core1 cd1 ts1 seg10 (e10 :: (mid1 ++ [last1])))
+    (hsrc : src = e10.ia) (hsd : src ≠ dst)
+    (hmid1 : ∀ e ∈ mid1, e.ia ≠ src ∧ e.ia ≠ dst ∧ expired now ts1 e.hop.exp = false)
+    (hexp0 : expired now ts1 e10.hop.exp = false)
+    (hjoint : last1.ia = e20.ia) (hld : last1.ia ≠ dst)
+    (hm2 : MacAt mac net ts2 β2 e20)
+    (htam : HopTamper true (hopOf e20.hop) h2')
+    (hr : InRange ⟨cd2, false, β2, ts2⟩ (hopOf e20.hop)) (hr' : InRange ⟨cd2, false, β2, ts2⟩ h2')
+    (fuel : Nat) :
+    ∃ o tr, run mac net now src dst (fuel + 2 + mid1.length) src 0 .host
+        ⟨[], ⟨cd1, false, usedAt cd1 seg10 e10, ts1⟩, [], hopOf e10.hop,
+          (mid1.map fun e => hopOf e.hop) ++ [hopOf last1.hop],
+          ⟨⟨cd2, false, β2, ts2⟩, h2' :: t2⟩ :: aft⟩ [] =
+      .stopped last1.ia 0 (.ext (inF cd1 last1)) o tr := by
+  have ha' : ∀ s ∈ (⟨⟨cd2, false, β2, ts2⟩, h2' :: t2⟩ : Seg) :: aft, s.hops.length ≠ 1 := by
+    intro s hs
+    simp only [List.mem_cons] at hs
+    rcases hs with rfl | hs
+    · cases t2 <;> simp_all
+    · exact ha s hs
+  have hpre := segment_prefix_run_after mac net now src dst hUp hSR core1 cd1 ts1 seg10 e10 mid1 last1
+    (hopOf last1.hop) [] _ ha' hFL1 hsrc hsd hmid1 hexp0 (fuel + 1)
+  rw [show fuel + 2 + mid1.length = fuel + 1 + 1 + mid1.length by omega, hpre]
+  obtain ⟨_, hin0, _⟩ := fl_last mac net core1 cd1 ts1 mid1 e10 last1 seg10 hFL1
+  have hdl : (last1.ia == dst) = false := by simp [hld]
+  have hrej : (routerStep mac ⟨(net last1.ia).key, 0, (net last1.ia).ifaces⟩ now (.ext (inF cd1 last1))
+      (last1.ia == src) (last1.ia == dst)
+      ⟨[], ⟨cd1, false, Scion.SegID.extractBeta (Scion.SegID.updateSegID seg10 (pfx e10.hop.mac)) (sig mid1), ts1⟩,
+        hopOf e10.hop :: mid1.map (fun e => hopOf e.hop), hopOf last1.hop, [],
+        ⟨⟨cd2, false, β2, ts2⟩, h2' :: t2⟩ :: aft⟩).accepting = false := by
+    rw [hdl]
+    exact xover_tampered_rejected mac ⟨(net last1.ia).key, 0, (net last1.ia).ifaces⟩ now _ _ hinj [] _ _ _
+      ⟨cd2, false, β2, ts2⟩ (hopOf e20.hop) h2' t2 aft rfl
+      (by rw [hjoint]; exact macOk_of_macAt mac net ts2 β2 e20 cd2 false hm2) hr hr' htam
+  obtain ⟨o, ho⟩ := run_stops mac net now src dst fuel last1.ia 0 (.ext (inF cd1 last1)) _ _ hrej
+  exact ⟨o, _, ho⟩
+
+/-- **run level, any hop after the first of the THIRD segment** (`_partial`: one border router per
+    AS; the three segments described by `FL`; the rest of the third segment is arbitrary) -/
+theorem tamper_third_segment_hop_stopped_partial (mac : MacFn) (net : Net) (now src dst : Nat)
+    (hUp : AllUp net) (hSR : SingleRouter net)
+    (core1 cd1 : Bool) (ts1 seg10 : Nat) (e10 : ASE) (mid1 : List ASE) (last1 : ASE)
+    (core2 cd2 : Bool) (ts2 seg20 : Nat) (e20 : ASE) (mid2 : List ASE) (last2 : ASE)
+    (core3 cd3 : Bool) (ts3 seg30 : Nat) (e30 : ASE) (m3 : List ASE) (ek3 : ASE) (h' : Hop)
+    (tlh : List Hop) (aft : List Seg) (ha : ∀ s ∈ aft, s.hops.length ≠ 1)
+    (hinj : MacInj mac (net ek3.ia).key)
+    (hFL1 : FL mac net core1 cd1 ts1 seg10 (e10 :: (mid1 ++ [last1])))
+    (hFL2 : FL mac net core2 cd2 ts2 seg20 (e20 :: (mid2 ++ [last2])))
+    (hFL3 : FL mac net core3 cd3 ts3 seg30 (e30 :: (m3 ++ [ek3])))
+    (hsrc : src = e10.ia) (hsd : src ≠ dst)
+    (hmid1 : ∀ e ∈ mid1, e.ia ≠ src ∧ e.ia ≠ dst ∧ expired now ts1 e.hop.exp = false)
+    (hexp0 : expired now ts1 e10.hop.exp = false)
+    (hjoint1 : last1.ia = e20.ia) (hls1 : last1.ia ≠ src) (hld1 : last1.ia ≠ dst)
+    (hexpl1 : expired now ts1 last1.hop.exp = false) (hexp20 : expired now ts2 e20.hop.exp = false)
+    (hxlt1 : ∀ a b, InLT core1 cd1 a → EgLT core2 cd2 b → ltXover a b = true)
+    (hmid2 : ∀ e ∈ mid2, e.ia ≠ src ∧ e.ia ≠ dst ∧ expired now ts2 e.hop.exp = false)
+    (hjoint2 : last2.ia = e30.ia) (hls2 : last2.ia ≠ src) (hld2 : last2.ia ≠ dst)
+    (hexpl2 : expired now ts2 last2.hop.exp = false) (hexp30 : expired now ts3 e30.hop.exp = false)
+    (hxlt2 : ∀ a b, InLT core2 cd2 a → EgLT core3 cd3 b → ltXover a b = true)
+    (hmid3 : ∀ e ∈ m3, e.ia ≠ src ∧ e.ia ≠ dst ∧ expired now ts3 e.hop.exp = false)
+    (htam : HopTamper cd3 (hopOf ek3.hop) h')
+    (hr : InRange ⟨cd3, false, usedSeg cd3 (Scion.SegID.extractBeta (Scion.SegID.updateSegID seg30 (pfx e30.hop.mac)) (sig m3))
+            (hopOf ek3.hop), ts3⟩ (hopOf ek3.hop))
+    (hr' : InRange ⟨cd3, false, usedSeg cd3 (Scion.SegID.extractBeta (Scion.SegID.updateSegID seg30 (pfx e30.hop.mac)) (sig m3))
+            h', ts3⟩ h')
+    (fuel : Nat) :
+    ∃ o tr, run mac net now src dst (fuel + 4 + mid1.length + mid2.length + m3.length) src 0 .host
+        ⟨[], ⟨cd1, false, usedAt cd1 seg10 e10, ts1⟩, [], hopOf e10.hop,
+          (mid1.map fun e => hopOf e.hop) ++ [hopOf last1.hop],
+          ⟨⟨cd2, false, usedAt cd2 seg20 e20, ts2⟩,
+            hopOf e20.hop :: ((mid2.map fun e => hopOf e.hop) ++ [hopOf last2.hop])⟩ ::
+          ⟨⟨cd3, false, usedAt cd3 seg30 e30, ts3⟩,
+            hopOf e30.hop :: ((m3.map fun e => hopOf e.hop) ++ h' :: tlh)⟩ :: aft⟩ [] =
+      .stopped ek3.ia 0 (.ext (inF cd3 ek3)) o tr := by
+  have ha3 : ∀ s ∈ (⟨⟨cd3, false, usedAt cd3 seg30 e30, ts3⟩,
+      hopOf e30.hop :: ((m3.map fun e => hopOf e.hop) ++ h' :: tlh)⟩ : Seg) :: aft, s.hops.length ≠ 1 := by
+    intro s hs
+    simp only [List.mem_cons] at hs
+    rcases hs with rfl | hs
+    · simp
+    · exact ha s hs
+  have ha2 : ∀ s ∈ (⟨⟨cd2, false, usedAt cd2 seg20 e20, ts2⟩,
+      hopOf e20.hop :: ((mid2.map fun e => hopOf e.hop) ++ [hopOf last2.hop])⟩ : Seg) ::
+      ⟨⟨cd3, false, usedAt cd3 seg30 e30, ts3⟩,
+        hopOf e30.hop :: ((m3.map fun e => hopOf e.hop) ++ h' :: tlh)⟩ :: aft, s.hops.length ≠ 1 := by
+    intro s hs
+    simp only [List.mem_cons] at hs
+    rcases hs with rfl | hs
+    · simp
+    · exact ha3 s (by simpa using hs)
+  have hpre := segment_prefix_run_after mac net now src dst hUp hSR core1 cd1 ts1 seg10 e10 mid1 last1
+    (hopOf last1.hop) [] _ ha2 hFL1 hsrc hsd hmid1 hexp0 (fuel + 3 + mid2.length + m3.length)
+  rw [show fuel + 4 + mid1.length + mid2.length + m3.length =
+    fuel + 3 + mid2.length + m3.length + 1 + mid1.length by omega, hpre]
+  have hcross1 := cross_prefix_run mac net now src dst hUp hSR core1 cd1 ts1 seg10 e10 mid1 last1
+    core2 cd2 ts2 seg20 e20 mid2 last2 (hopOf last2.hop) [] [] _
+    (hopOf e10.hop :: mid1.map fun e => hopOf e.hop)
+    (by simp) ha3 (by simp) hFL1 hFL2 hjoint1 hls1 hld1 hexpl1 hexp20 hxlt1 hmid2 (fuel + 2 + m3.length)
+    ((e10.ia, outF cd1 e10) :: ((firstOf mid1 last1).ia, inF cd1 (firstOf mid1 last1)) :: fTrace cd1 mid1 last1)
+  rw [show fuel + 3 + mid2.length + m3.length = fuel + 2 + m3.length + 1 + mid2.length by omega, hcross1]
+  have hcross2 := fun tr0 => cross_prefix_run mac net now src dst hUp hSR core2 cd2 ts2 seg20 e20 mid2 last2
+    core3 cd3 ts3 seg30 e30 m3 ek3 h' tlh
+    ([] ++ [⟨⟨cd1, false, usedSeg cd1 (Scion.SegID.extractBeta (Scion.SegID.updateSegID seg10 (pfx e10.hop.mac)) (sig mid1))
+      (hopOf last1.hop), ts1⟩, (hopOf e10.hop :: mid1.map fun e => hopOf e.hop) ++ [hopOf last1.hop]⟩]) aft
+    (hopOf e20.hop :: mid2.map fun e => hopOf e.hop)
+    (by simp) ha (by simp) hFL2 hFL3 hjoint2 hls2 hld2 hexpl2 hexp30 hxlt2 hmid3 (fuel + 1) tr0
+  rw [show fuel + 2 + m3.length = fuel + 1 + 1 + m3.length by omega, hcross2]
+  obtain ⟨hml, hin0, _⟩ := fl_last mac net core3 cd3 ts3 m3 e30 ek3 seg30 hFL3
+  obtain ⟨o, ho⟩ := tamper_at_arrival_stopped mac net now src dst cd3 ts3 _ ek3 h' _ aft _ tlh hinj hin0 hml
+    htam hr hr' fuel _
   exact ⟨o, _, ho⟩
 
 /-- an injective "MAC": the input itself, read as a number in base 257 with digits 1…256 -/
